@@ -29,6 +29,15 @@ pub uninterp spec fn rs_bytes<R>(r: R) -> Seq<u8>;
 /// `off_t` are `i64`: no stream is longer than `i64::MAX` bytes.
 pub spec const MAX_STREAM_LEN: nat = 0x7fff_ffff_ffff_ffff;
 
+/// R7 by name resolution: Verus rejects the auto-trait bound `File: Unpin`
+/// on a CONCRETE type ("does not recognize this trait bound").  `Unpin` is a
+/// marker (pinning; no method, nothing a contract could mention); within this
+/// unit the name resolves to this marker trait, implemented for the same
+/// types std implements it for (`&mut T` always; tokio's `File`).
+pub trait Unpin {}
+impl<R> Unpin for &mut R {}
+impl Unpin for File {}
+
 /// tokio: `impl<T: ?Sized + AsyncRead + Unpin> AsyncRead for &mut T` (and AsyncSeek)
 impl<R: AsyncRead> AsyncRead for &mut R {}
 impl<R: AsyncSeek> AsyncSeek for &mut R {}
@@ -103,4 +112,14 @@ pub proof fn c15_row_pos_minus_4(row_pos: u64)
 pub proof fn c15_row_start(row_pos: u64, row_len: u32)
     requires row_pos >= row_len as u64 + 8, /*@PL:no_underflow_row_start*/
     ensures row_pos >= row_len as u64 + 8,
+{}
+
+/// The same two obligations under the hypothesis `wf` = "the stream is a
+/// well-formed row file and the backward cursor sits at the end of one of its
+/// rows" (on well-formed files they follow from file_wf).
+pub proof fn c15_row_pos_minus_4_wf(wf: bool, row_pos: u64)
+    requires wf ==> row_pos >= 4, /*@PL:no_underflow_row_len_pos_on_wf_file*/
+{}
+pub proof fn c15_row_start_wf(wf: bool, row_pos: u64, row_len: u32)
+    requires wf ==> row_pos >= row_len as u64 + 8, /*@PL:no_underflow_row_start_on_wf_file*/
 {}
